@@ -186,6 +186,61 @@ func init() {
 		},
 	})
 	eng.Register(&eng.Scenario{
+		Name: "once-two-abandons", Props: []string{"C16"}, MustFinish: true, ObsNames: stdObs,
+		Doc:   "promise.Once whose function honours its context (returns context.Canceled if the starter's context is cancelled while it runs): callers A and C have cancellable contexts with a canceller each, caller B has a live context: B may sit through two abandoned attempts in a row (A's, then C's) and still obtains the value; it never gets context.Canceled",
+		Quick: eng.Bounds{PB: 3, Delay: true}, Thorough: eng.Bounds{PB: 4, Delay: true},
+		Body: func() {
+			bg := context.Background()
+			once := promise.NewOnce(func(ctx context.Context) (int, error) {
+				n := vsched.CtrAdd(c16Calls, 1)
+				if vsched.CtrAdd(c16Active, 1) > 1 {
+					fail("C16.overlap", "function running twice at the same time (call %d)", n)
+				}
+				if vsched.Ctr(c16Success) != 0 {
+					fail("C16.called-after-success", "function called again (call %d) after it had returned without error", n)
+				}
+				vsched.Point()
+				vsched.CtrAdd(c16Active, -1)
+				if ctx.Err() != nil {
+					return 0, context.Canceled
+				}
+				vsched.CtrSet(c16Success, 7)
+				return 7, nil
+			})
+			ctxA, cancelA := context.WithCancel(bg)
+			ctxC, cancelC := context.WithCancel(bg)
+			cancellable := func(name string, ctx context.Context, flag int) {
+				T(name, func() {
+					label("Once.Resolve")
+					v, err := once.Resolve(ctx)
+					label("")
+					if !(v == 7 && err == nil) && !(v == 0 && err == context.Canceled && vsched.Ctr(flag) != 0) {
+						fail("C16.wrong-value", "caller %s got (%d,%v)", name, v, err)
+					}
+				})
+			}
+			cancellable("A", ctxA, c16Cancel)
+			cancellable("C", ctxC, c16Cancel+20)
+			T("B", func() {
+				label("Once.Resolve")
+				v, err := once.Resolve(bg)
+				label("")
+				vsched.Observe(oRet, 1, int64(v), b2i(err != nil))
+				if err == context.Canceled {
+					fail("C16.spurious-cancel", "Resolve returned context.Canceled to caller B, whose context is live (it sat through %d abandoned attempt(s))", vsched.Ctr(c16Calls)-1)
+				} else if v != 7 || err != nil {
+					fail("C16.wrong-value", "caller B got (%d,%v)", v, err)
+				}
+			})
+			T("XA", func() { vsched.CtrSet(c16Cancel, 1); cancelA() })
+			T("XC", func() { vsched.CtrSet(c16Cancel+20, 1); cancelC() })
+			vsched.Settle()
+			if n := vsched.CountParked("Once.Resolve"); n > 0 {
+				fail("C16.stuck", "%d Resolve caller(s) never returned", n)
+			}
+		},
+	})
+	eng.Register(&eng.Scenario{
 		Name: "memo-3", Props: []string{"C16"}, MustFinish: true, ObsNames: stdObs,
 		Doc:   "memo.MemoizeFunc: 3 concurrent callers + a late caller, function returns a value or an error (choice); exactly one call, everybody gets its result",
 		Quick: eng.Bounds{PB: 3}, Thorough: eng.Bounds{PB: 6},
